@@ -20,6 +20,13 @@ ASSUMPTIONS = [
 
 PROPS = {
 
+    "C15": {"rule": "accounts in the runtime's serialized layout (opened with solana_program_entrypoint::deserialize; original length = initial length, 10 KiB spare) holding 1-5 TLV entries "
+            "(5 tags, repeated types, Borsh- and hand-packed values of 0..40 bytes, 0..60 spare zero bytes); histories of 1-6 realloc_and_pack operations on one AccountInfo targeting first / middle / last / missing entries "
+            "with new sizes {same, +-1, 0, half, +2..60, around the 10 KiB growth limit}; after each: result, data length, serialized length field, all bytes against a Vec oracle + independent encoder; "
+            "derived packer on 7 compiled items (String/Vec/Option/nested/enum; where-clause, inline-bound and const generics) x 300 random values: packed length, exact bytes, larger-slot decode, too-small slot; "
+            "non-trivial = at least one successful resize", "partial": ["the derived packer equals Borsh: differential (compiled items vs borsh::to_vec, and vs the Gallina Borsh universe in Coq)"],
+            "masks": [], "assumptions": ["AccountInfo::resize modelled as truncate / zero-extend with the 10 KiB limit over the original length; memory safety of its unsafe code is outside the model"]},
+
     "C12": {"rule": "histories of 1-8 init / update operations over 1-4 instruction discriminators (two sharing a 7-byte prefix) with arbitrary 35-byte configs, list lengths 0..8 (update to longer / shorter / equal / empty), "
             "accounts of the advertised total size -1 / 0 / +1 / +40 / random; after every operation every list is reloaded (unpack_with_tlv_state) and compared with a map oracle; failed operations must leave the bytes unchanged; "
             "exact size and one-byte-less for n = 0..8; malformed account bytes (mutated header, 0xfffffff0 length, trailing non-zero) through init/update/reload; non-trivial = at least one successful init/update",
